@@ -55,8 +55,8 @@ fn cell(n_layers: usize) -> BoxedStrategy<Act> {
 }
 
 fn cfg_strategy(src: Vec<u16>, n_layers: std::ops::RangeInclusive<usize>) -> BoxedStrategy<MCfg> {
-    (n_layers, any::<bool>(), any::<bool>(), any::<bool>(), any::<bool>())
-        .prop_flat_map(move |(nl, to_base, delegate, block, proc_unmapped)| {
+    (n_layers, any::<bool>(), any::<bool>(), any::<bool>(), any::<bool>(), (0u8..3, any::<u16>()))
+        .prop_flat_map(move |(nl, to_base, delegate, block, proc_unmapped, (lm_sel, lm))| {
             let src = src.clone();
             let n = src.len();
             prop::collection::vec(prop::collection::vec(cell(nl), n..=n), nl..=nl).prop_map(move |layers| MCfg {
@@ -68,6 +68,9 @@ fn cfg_strategy(src: Vec<u16>, n_layers: std::ops::RangeInclusive<usize>) -> Box
                 process_unmapped: proc_unmapped || block,
                 concurrent_tap_hold: false,
                 rapid_event_delay: None,
+                // one configuration in three writes some layers as deflayermap
+                layermap: if lm_sel == 0 { lm } else { 0 },
+                chords_v2: vec![],
             })
         })
         .boxed()
@@ -92,6 +95,8 @@ fn fixed_cfgs() -> Vec<MCfg> {
         process_unmapped: false,
         concurrent_tap_hold: false,
         rapid_event_delay: None,
+        layermap: 0,
+        chords_v2: vec![],
     };
     let sft_x = Act::Chord(vec![kc("lsft"), kc("x")]);
     vec![
@@ -171,7 +176,7 @@ impl TypedProp for C04 {
     fn info(&self) -> PropInfo {
         PropInfo {
             level: "exploration",
-            rule: "exhaustive part: every toggle schedule of 1..N events over keys a,b,c with gaps {0,1,2} ms on 12 small layered configs (6 hand-written, 6 drawn by the seed); random part: generated configs (1-4 layers, 2-6 keys, both transparent-key-resolution settings, delegate-to-first-layer, block/process-unmapped-keys) with physically consistent histories of up to 40 events. Oracle: reference model, full timestamped output equality. Non-trivial: an event was processed while a layer was held or switched, or a transparent cell was resolved through >= 2 levels. Distinct: hash of (config, history).",
+            rule: "exhaustive part: every toggle schedule of 1..N events over keys a,b,c with gaps {0,1,2} ms on 12 small layered configs (6 hand-written, 6 drawn by the seed); random part: generated configs (1-4 layers, 2-6 keys, both transparent-key-resolution settings, delegate-to-first-layer, block/process-unmapped-keys; one in three writes some of its layers as deflayermap: every cell listed, `_` for the most frequent action at a random position, or transparent cells left out) with physically consistent histories of up to 40 events. Oracle: reference model, full timestamped output equality. Non-trivial: an event was processed while a layer was held or switched, or a transparent cell was resolved through >= 2 levels. Distinct: hash of (config, history).",
             assumptions: vec![
                 "fewer than 32 events pending (cases with more are discarded and counted)".into(),
                 "tick conventions of DESIGN.md Appendix A.1 are part of the oracle".into(),
@@ -189,7 +194,7 @@ impl TypedProp for C04 {
             n_cases: 12 * s + random,
             exhaustive: false,
             distinct_by_construction: false,
-            required_classes: vec!["exhaustive", "random", "trans_depth>=2", "to-base-layer", "delegate", "multi-nested-trans"],
+            required_classes: vec!["exhaustive", "random", "trans_depth>=2", "to-base-layer", "delegate", "multi-nested-trans", "deflayermap", "deflayermap-wildcard"],
             hang_secs: 60,
         }
     }
@@ -277,6 +282,12 @@ impl TypedProp for C04 {
         }
         if case.cfg.layers.iter().flatten().any(|a| matches!(a, Act::Multi(m) if m.contains(&Act::Trans))) {
             v.classes.push("multi-nested-trans");
+        }
+        if case.cfg.layermap & ((1 << case.cfg.layers.len().min(8)) - 1) != 0 {
+            v.classes.push("deflayermap");
+            if (case.cfg.layermap >> 8) % 3 == 1 {
+                v.classes.push("deflayermap-wildcard");
+            }
         }
         v
     }
